@@ -508,6 +508,21 @@ func handleOracle(i int, fail func(int, string, string, string, string, string, 
 		}
 		return ""
 	}
+	if w[1] == "enable" || w[1] == "disable" || w[1] == "save" {
+		// what the handle reads back is the server's state: a successful Save (Enable and
+		// Disable are Saves) leaves the handle showing the proxy as the server now has it
+		if e4.ProxyEntry(after, h.Name) != "" {
+			en := "0"
+			if h.Enabled {
+				en = "1"
+			}
+			if field(after, 1) != h.Listen || field(after, 2) != h.Upstream || field(after, 3) != en {
+				return fail(i, "oracle", "C19", "listen="+field(after, 1)+" upstream="+field(after, 2)+" enabled="+field(after, 3),
+					"listen="+h.Listen+" upstream="+h.Upstream+" enabled="+en,
+					"after a successful Proxy."+strings.Title(w[1])+"() the handle does not show the proxy as the server has it", "e5:C19:handle-stale-after-save")
+			}
+		}
+	}
 	switch w[1] {
 	case "enable", "disable":
 		want := "1"
@@ -518,6 +533,7 @@ func handleOracle(i int, fail func(int, string, string, string, string, string, 
 			return fail(i, "oracle", "C19", "enabled="+want, "enabled="+got+" (\"\" = no such proxy)",
 				"Proxy."+strings.Title(w[1])+"() reported success but the server's proxy is not in that state", "e5:C19:handle-"+w[1]+"-no-effect")
 		}
+	case "save":
 	case "delete":
 		if e4.ProxyEntry(after, h.Name) != "" {
 			return fail(i, "oracle", "C19", "deleted", "still there", "Proxy.Delete() reported success but the proxy still exists", "e5:C19:handle-delete-no-effect")
